@@ -131,7 +131,9 @@ def task_b(cfg):
         if ex.exc is None and ex.tuner.tuning_status is not None and ex.tuner.tuning_status.overall_metric_statistics.count > 0:
             import contextlib, io
             with contextlib.redirect_stdout(io.StringIO()):
-                best = ex.tuner.best_config()[0]
+                # every metric the scheduler optimises (multi-objective: one mode per metric), by index
+                nm = len(ex.tuner.scheduler.metric_names())
+                best = tuple(ex.tuner.best_config(metric=i)[0] for i in range(nm)) if nm > 1 else ex.tuner.best_config()[0]
         ts = ex.tuner.tuning_status
         counters = None if ts is None else (ts.num_trials_started, ts.num_trials_completed, ts.num_trials_failed, ts.num_trials_finished)
         trace = [(e[0], e[1], e[3]) if e[0] == "on_trial_result" else (e[:4] if e[0] == "suggest" else e[:2]) for e in ex.log
@@ -295,7 +297,7 @@ def configs(tier, seed):
             for i in range(0, len(subsets), 2):
                 out.append(("T", dict(kind=kind, T=9, R=27, seed=seed, good=list(good), kw=dict(reduction_factor=3),
                                       subsets=[list(v) for v in subsets[i:i + 2]])))
-    for ki, kind in enumerate(["fifo-random", "hb-stopping", "hb-promotion", "median", "shb", "pbt"]):
+    for ki, kind in enumerate(["fifo-random", "hb-stopping", "hb-promotion", "median", "shb", "pbt", "moasha"]):
         for pi, prof in enumerate(tunerx.PROFILES):
             if (pi + ki + seed) % (8 if tier == "quick" else 2) != 0:
                 continue
